@@ -448,6 +448,13 @@ def run_c14(ck, tier):
     r = rng("C14")
     if thorough and len(cases) > 60000:
         cases = r.sample(cases, 60000)
+    if not thorough:
+        # quick: every case of the core vocabulary, a seed-dependent half of the rest (thorough runs all of them)
+        core = {"bs_n", "bs_1", "bs_g", "bs_d", "bs_end", "paren", "star", "md5_salt9", "md5_salt0", "md5_nohash", "j9_short", "j9_foreign", "j9_valid", "md5_emptysalt",
+                "md5_emptysalt2", "md5_dollars", "j9_underscore", "j9_nonascii", "sha_longsalt", "sha_rounds_big", "fe80_pct", "fe80_1_pct", "brk_2000", "quote_10", "empty",
+                "uni", "plainword", "num7", "d1", "dx", "d6", "d_only", "two"}
+        cases = [c for c in cases if all(x in core for x in c["slots"]) or r.random() < 0.5]
+        ck.notes["quick_sampled_cases"] = len(cases)
     traces, meta = [], []
     fas = {}
     for ci, c in enumerate(cases):
@@ -506,6 +513,44 @@ def run_c14(ck, tier):
         traces.append(ev)
         meta.append({"case": {"frame": "form:" + als[k]["form"], "slots": ["secret-forms"], "salt": salt_name, "feats": ["pwd"]}, "info": info})
         ck.count(("c14forms", k))
+    # legal but unusual OPTION values (lists that also name IPv6 networks, AS numbers written with a blank or a leading
+    # zero, words with regex metacharacters): once the anonymizer was constructed, no line makes it fail
+    opt_lines = ["interface Gi0/1", " ip address 192.0.2.7 255.255.255.0", " ip address 10.1.2.3 255.0.0.0", " ipv6 address 2001:db8::7/64", "router bgp 65002",
+                 " neighbor 198.51.100.9 remote-as 65010", " neighbor 11.12.13.14 remote-as 65001", "as-path 65001 65002 065010 0 65003", "hostname a.b-x*y(z[w",
+                 "enable secret S3cretXq", "snmp-server community CommStr RO", "ip route 0.0.0.0 0.0.0.0 192.0.2.1", "ntp server 224.0.1.1", "end"]
+    variants = [
+        ("networks-with-ipv6", dict(anon_ip=True, preserve_networks=["2001:db8::/32", "192.0.2.0/24"])),
+        ("networks-ipv6-last", dict(anon_ip=True, preserve_networks=["10.1.0.0/16", "fe80::/10"])),
+        ("prefixes-with-ipv6", dict(anon_ip=True, preserve_prefixes=["2001:db8::/32", "10.0.0.0/8"])),
+        ("undo-networks-with-ipv6", dict(undo_ip_anon=True, preserve_networks=["2001:db8::/32", "192.0.2.0/24"])),
+        ("as-blank-and-leading-zero", dict(as_numbers=["65001", " 65002", "065010", "0"])),
+        ("as-and-everything", dict(anon_pwd=True, anon_ip=True, as_numbers=["65001", "65002 ", "0065003"], sensitive_words=["a.b", "x*", "(", "[w", "é"], reserved_words=["CommStr"])),
+    ]
+    for vname, kw in variants:
+        ev = [{"ev": "cfg", "collapse": True, "clauses": ["Structure"]}]
+        info = [None]
+        base_kw = dict(anon_pwd=False, anon_ip=False, salt="opts")
+        base_kw.update(kw)
+        try:
+            fa = AF.FileAnonymizer(**base_kw)
+        except Exception as e:
+            fa = None
+            ck.notes.setdefault("option_values_refused_by_the_constructor", []).append("%s: %s" % (vname, type(e).__name__))
+        if fa is not None:
+            for ln in opt_lines:
+                try:
+                    out, errs = run_io(fa, ln + "\n")
+                    for m in errs:
+                        ev.append({"ev": "exc", "what": "ERROR logged: " + m})
+                        info.append(("error-log", ln))
+                    ev.append({"ev": "text", "nin": 1, "nout": len(split_keep(out))})
+                    info.append(("linecount", "%r -> %r" % (ln, out)))
+                except Exception as e:
+                    ev.append({"ev": "exc", "what": "%s: %s" % (type(e).__name__, str(e)[:200])})
+                    info.append(("exception:" + type(e).__name__, ln))
+        traces.append(ev)
+        meta.append({"case": {"frame": "options:" + vname, "slots": ["option-values"], "salt": "opts", "feats": sorted(k for k in kw)}, "info": info})
+        ck.count(("c14opts", vname))
     # a long run through ONE FileAnonymizer (thousands of distinct addresses of both families): no point of the
     # history may make a later line fail
     rl = rng("C14", "longrun")
